@@ -479,3 +479,151 @@ func sentinelEdges(fn *ssa.Function, vals map[ssa.Value]bool) []Edge {
 		return b.Op == token.EQL, b.Op == token.NEQ
 	})
 }
+
+// R-RECORD-READERS: every function of a primary that reads a record at a
+// location the index handed out (a ReadAt whose offset derives from
+// Block.Offset) reads the whole record — size prefix plus Block.Size bytes —
+// into a buffer of exactly that length. A "key only" reader that clamps the
+// length to what it assumes the largest key to be returns a truncated key for
+// larger multihashes (identity hashes, long digests): the full-key comparison
+// then fails and present blocks are reported absent.
+func ruleRecordReaders(r *Report) {
+	const rule = "record-readers"
+	n := 0
+	for _, fn := range moduleFuncs(r.E) {
+		root := fn
+		for root.Parent() != nil {
+			root = root.Parent()
+		}
+		if root.Pkg == nil {
+			continue
+		}
+		if pn := root.Pkg.Pkg.Name(); pn != "mhprimary" && pn != "cidprimary" {
+			continue
+		}
+		for _, c := range callSites(fn, "(*os.File).ReadAt") {
+			if c.Parent() != fn {
+				continue
+			}
+			a := c.Common().Args
+			if !derives(a[2], flowOpts{ThroughAllCalls: true, Arith: true}, isFieldLoad("Block.Offset")) {
+				continue
+			}
+			// size-word readers (the collectors, the freelist consumers) read 4 bytes into a constant-size buffer
+			if l, isLen := (linEnv{}).sliceLen(a[1]); isLen {
+				if k, isC := l.isConst(); isC && k <= 8 {
+					continue
+				}
+			}
+			n++
+			r.fn(fn)
+			key := shortFunc(root) + "/reads-whole-record"
+			mk, ok := rootBuffer(a[1]).(*ssa.MakeSlice)
+			if !ok {
+				r.Bad(rule, key, c.Pos(), "the read buffer is not a freshly made slice: its length cannot be related to the record size")
+				continue
+			}
+			l := (linEnv{}).lin(mk.Len)
+			okLen := l.T["F:Block.Size"] == 1 && len(l.T) == 1 && l.C > 0 && l.C <= 8
+			r.Check(okLen, rule, key, c.Pos(), "reads [ "+l.String()+" ] bytes = size prefix + stored size",
+				"a record located through the index is read into a buffer of [ "+l.String()+" ] bytes, not size prefix + Block.Size: a clamped or shortened read returns a truncated key or value for records larger than the assumed maximum, so the full-key comparison fails and present keys are reported absent (or values come back cut)")
+		}
+	}
+	r.Min(rule, 2)
+}
+
+// R-SNAPSHOT-COVERS: loading the bucket snapshot assigns every bucket: the
+// element stores into the table are indexed by a counter that starts at 0,
+// steps by 1 and runs while it is below len(table) (or a range over the
+// table). A block-wise reader whose loop drops a final partial block leaves the
+// last buckets at zero: their keys are absent after a clean reopen. Any other
+// loop shape is reported as "coverage cannot be established".
+func ruleSnapshotCovers(r *Report) {
+	const rule = "snapshot-covers"
+	fn := r.need(rule, "I", "loadBucketState")
+	if fn == nil {
+		return
+	}
+	key := "loadBucketState/assigns-every-bucket"
+	var table *ssa.Parameter
+	for _, p := range fn.Params {
+		if strings.HasSuffix(p.Type().String(), "index.Buckets") {
+			table = p
+		}
+	}
+	if table == nil {
+		r.Bad(rule, key, fn.Pos(), "bucket table parameter not found")
+		return
+	}
+	n := 0
+	okAll := true
+	why := ""
+	eachInstr(fn, func(in ssa.Instruction) {
+		st, ok := in.(*ssa.Store)
+		if !ok {
+			return
+		}
+		ia, ok := st.Addr.(*ssa.IndexAddr)
+		if !ok || !derives(ia.X, flowOpts{}, func(v ssa.Value) bool { return v == ssa.Value(table) }) {
+			return
+		}
+		n++
+		idx := stripIntConv(ia.Index)
+		var phi *ssa.Phi
+		switch x := idx.(type) {
+		case *ssa.Phi:
+			phi = x
+		case *ssa.BinOp: // range loops: index = phi + 1
+			if k, isC := intConst(x.Y); isC && k == 1 && x.Op == token.ADD {
+				phi, _ = stripIntConv(x.X).(*ssa.Phi)
+			}
+		}
+		if phi == nil || !isCountedPhi(phi) {
+			okAll, why = false, "the element index is not a simple loop counter"
+			return
+		}
+		// step 1, bound len(table)
+		for i, e := range phi.Edges {
+			if phi.Block().Dominates(phi.Block().Preds[i]) {
+				bo, ok := stripIntConv(e).(*ssa.BinOp)
+				k, isC := int64(0), false
+				if ok {
+					k, isC = intConst(bo.Y)
+				}
+				if !ok || bo.Op != token.ADD || !isC || k != 1 {
+					okAll, why = false, "the counter does not step by 1"
+				}
+			}
+		}
+		bounded := false
+		for _, b := range fn.Blocks {
+			ifi, ok := lastInstr(b).(*ssa.If)
+			if !ok {
+				continue
+			}
+			bo, ok := ifi.Cond.(*ssa.BinOp)
+			if !ok || bo.Op != token.LSS {
+				continue
+			}
+			x := stripIntConv(bo.X)
+			isCtr := x == ssa.Value(phi)
+			if b2, ok := x.(*ssa.BinOp); ok && b2.Op == token.ADD && stripIntConv(b2.X) == ssa.Value(phi) {
+				if k, isC := intConst(b2.Y); isC && k == 1 {
+					isCtr = true
+				}
+			}
+			if c, ok := stripIntConv(bo.Y).(*ssa.Call); ok && isCtr && cname(c) == "builtin.len" && derives(c.Call.Args[0], flowOpts{}, func(v ssa.Value) bool { return v == ssa.Value(table) }) {
+				bounded = true
+			}
+		}
+		if !bounded {
+			okAll, why = false, "the loop does not run while counter < len(table)"
+		}
+	})
+	if n == 0 {
+		okAll, why = false, "no element store into the table"
+	}
+	r.Check(okAll, rule, key, fn.Pos(), "the table is filled by a counter from 0 by 1 below len(table)",
+		"it cannot be established that loading the snapshot assigns every bucket ("+why+"): buckets left at zero make their keys absent after a clean Close and reopen")
+	r.Min(rule, 1)
+}
